@@ -861,13 +861,13 @@ example : unsplitLines (renderLogicals '\\' [⟨[], "a".toList⟩] ++ renderPart
 
 /-! ### optlist_to_dict (round 10) -/
 
-/-- Round trip: options joined by any non-empty separator string `d` that occurs in none of them (`sepFree`), a flag
-    written as its name, a key/value option as padded key, `kv`, value: the result is the last-wins map of the options
-    in order of first occurrence, flags carrying `True` (`none`), values coming back exactly (with `strip_quotes`: without
-    their matching outer quotes).  With `strip_quotes` the statement needs every value to be non-empty, see
-    `optlist_empty_value_witness`. -/
-theorem optlist_roundtrip_partial (d : Str) (hd : d ≠ []) (kv : Char) (sq : Bool) (items : List OptItem) (hne : items ≠ [])
-    (hit : ∀ it ∈ items, OptItemOk kv sq it) (hsep : ∀ it ∈ items, sepFree d (renderOptItem kv it) = true) :
+/-- Round trip (full strength): options joined by any non-empty separator string `d` that occurs in none of them
+    (`sepFree`), a flag written as its name, a key/value option as padded key, `kv`, value: the result is the last-wins
+    map of the options in order of first occurrence, flags carrying `True` (`none`), values coming back exactly — EMPTY
+    values included — and, with `strip_quotes`, as `unquote` says (matching outer quotes removed; a value that is one
+    lone quote character becomes empty, as `v[1:-1]` does). -/
+theorem optlist_roundtrip (d : Str) (hd : d ≠ []) (kv : Char) (sq : Bool) (items : List OptItem) (hne : items ≠ [])
+    (hit : ∀ it ∈ items, OptItemOk kv it) (hsep : ∀ it ∈ items, sepFree d (renderOptItem kv it) = true) :
     optlistToDict (joinStr d (items.map (renderOptItem kv))) d (some [kv]) sq = .ok (fromPairs (items.map (optPairSq sq))) := by
   have hd' : d.isEmpty = false := by cases d with
     | nil => exact absurd rfl hd
@@ -877,21 +877,28 @@ theorem optlist_roundtrip_partial (d : Str) (hd : d ≠ []) (kv : Char) (sq : Bo
   simp only [optlistToDict, hd', Bool.false_eq_true, if_false, hsplit, mapM_makeKv kv sq items hit]
   rfl
 
-example : optlistToDict "rw, rsize = \"32 k\", ro, rw".toList ", ".toList (some ['=']) true
-    = .ok [("rw".toList, none), ("rsize".toList, some " \"32 k\"".toList), ("ro".toList, none)] := by decide
+example : optlistToDict "rw, rsize = \"32 k\", ro, rw, e=".toList ", ".toList (some ['=']) true
+    = .ok [("rw".toList, none), ("rsize".toList, some " \"32 k\"".toList), ("ro".toList, none), ("e".toList, some [])] := by decide
 
-/-- the full statement: also with `strip_quotes` and empty values -/
-def OptlistRoundtripFull : Prop :=
+/-- what `strip_quotes` does to a value, spelled out: empty stays empty, `"x"` and `'x'` lose their quotes, mismatched or
+    inner quotes stay -/
+example : unquote [] = [] ∧ unquote "\"a b\"".toList = "a b".toList ∧ unquote "'x'".toList = "x".toList ∧
+    unquote "\"mis'".toList = "\"mis'".toList ∧ unquote "a\"b\"".toList = "a\"b\"".toList := by decide
+
+/-- the round-trip statement for the rule used BEFORE fix d975e2b (`makeKvOld`: `v[0]` evaluated on the empty value) -/
+def OptlistRoundtripOld : Prop :=
   ∀ (d : Str) (kv : Char) (sq : Bool) (items : List OptItem), d ≠ [] → items ≠ [] →
-    (∀ it ∈ items, OptItemOk kv false it) → (∀ it ∈ items, sepFree d (renderOptItem kv it) = true) →
-    optlistToDict (joinStr d (items.map (renderOptItem kv))) d (some [kv]) sq = .ok (fromPairs (items.map (optPairSq sq)))
+    (∀ it ∈ items, OptItemOk kv it) → (∀ it ∈ items, sepFree d (renderOptItem kv it) = true) →
+    optlistToDictOld (joinStr d (items.map (renderOptItem kv))) d (some [kv]) sq = .ok (fromPairs (items.map (optPairSq sq)))
 
-/-- known finding optlist-empty-value-strip-quotes: `optlist_to_dict('rw,k=', strip_quotes=True)` raises IndexError -/
-theorem optlist_empty_value_witness :
-    optlistToDict "rw,k=".toList ",".toList (some ['=']) true = .error .indexError ∧
-    optlistToDict "rw,k=".toList ",".toList (some ['=']) false = .ok [("rw".toList, none), ("k".toList, some [])] := by decide
+/-- regression of fix d975e2b: on `'rw,k='` with `strip_quotes=True` the old rule raised IndexError; the code as it is
+    returns `{'rw': True, 'k': ''}` -/
+theorem optlist_old_rule_witness :
+    optlistToDictOld "rw,k=".toList ",".toList (some ['=']) true = .error .indexError ∧
+    optlistToDict "rw,k=".toList ",".toList (some ['=']) true = .ok [("rw".toList, none), ("k".toList, some [])] := by decide
 
-theorem optlist_roundtrip_full_false : ¬ OptlistRoundtripFull := by
+/-- the old rule violated the round-trip statement that `optlist_roundtrip` proves of the present code -/
+theorem optlist_old_rule_violates : ¬ OptlistRoundtripOld := by
   intro h
   have hk : Stripped ['k'] := ⟨by intro c hc; simp at hc; subst hc; decide, by intro c hc; simp at hc; subst hc; decide⟩
   have := h [','] '=' true [.flag "rw".toList, .kv 0 ['k'] 0 []] (by decide) (by decide)
@@ -900,7 +907,7 @@ theorem optlist_roundtrip_full_false : ¬ OptlistRoundtripFull := by
       simp only [List.mem_cons, List.mem_nil_iff, or_false] at hit
       rcases hit with rfl | rfl
       · show '=' ∉ "rw".toList; decide
-      · exact ⟨by decide, hk, by decide, by intro h; cases h⟩)
+      · exact ⟨by decide, hk, by decide⟩)
     (by decide)
   revert this; decide
 
